@@ -196,8 +196,9 @@ PUBLISHERS = {}    # id(prog) -> set of function paths that call done_render(sel
 
 
 def publishers(prog):
-    """functions of the handle (first parameter `self`) every normal path of which publishes through done_render on `self`, directly
-    or through another such function: a private helper that always publishes is as good as done_render for its callers"""
+    """functions (first parameter `self`) every normal path of which publishes through done_render on `self` or on a handle reached
+    from `self`, directly or through another such function: a private helper that always publishes is as good as done_render for its
+    callers"""
     key = id(prog)
     if key in PUBLISHERS:
         return PUBLISHERS[key]
@@ -214,7 +215,7 @@ def publishers(prog):
                 c = callee(t)
                 if c and (c["fn"] in pub or c.get("res") in pub) and t[2]:
                     ap = access_path(f, defs, op_local(t[2][0])) if op_local(t[2][0]) is not None else None
-                    if ap is not None and ap[0] == 1 and ap[1] == ():
+                    if ap is not None and ap[0] == 1:      # `self`, or a handle owned by `self` (self.image.done_render(..))
                         blocks.add(b)
             if not blocks:
                 continue
@@ -900,6 +901,7 @@ def rule_publish_success(ctx):
                   "half-composited buffer as the frame: the failing call reports the error, every later call returns the wrong "
                   "picture as a success")
     sites = 0
+    pubset = publishers(ctx.prog)       # done_render and the helpers that always publish through it
     for f in handle_fns(ctx.prog):
         if f.kind == "Promoted":
             continue
@@ -918,13 +920,14 @@ def rule_publish_success(ctx):
                 elif st[0] == "=" and st[2][0] == "use" and op_local(st[2][1]) in succ_locals and len(st[1]) > 1 and "*" in st[1][1:]:
                     pubs.append((b, st[3], "store of a finished state"))
             t = blk[1]
-            if t[0] == "call" and callee(t) and (callee(t)["fn"] == DONE or callee(t).get("res") == DONE) and len(t[2]) >= 2:
-                l = op_local(t[2][1])
+            if t[0] == "call" and callee(t) and (callee(t)["fn"] in pubset or callee(t).get("res") in pubset) and len(t[2]) >= 2:
                 if defs is None:
                     defs = Defs(f)
-                d = defs.single(l) if l is not None else None
-                if d and d[2] == "assign" and d[3][2][0] == "agg" and d[3][2][1][0] == "adt" and d[3][2][1][2] in ("Done", "Blended"):
-                    pubs.append((b, t[-2], "done_render(%s)" % d[3][2][1][2]))
+                for a in t[2][1:]:
+                    l = op_local(a)
+                    d = defs.single(l) if l is not None else None
+                    if d and d[2] == "assign" and d[3][2][0] == "agg" and d[3][2][1][0] == "adt" and d[3][2][1][1] == FR and d[3][2][1][2] in ("Done", "Blended"):
+                        pubs.append((b, t[-2], "done_render(%s)" % d[3][2][1][2]))
         if not pubs:
             continue
         if defs is None:
